@@ -113,7 +113,40 @@ func c07Seeds(thorough bool) []*devSeed {
 		}
 		out = append(out, &devSeed{Name: shortModel(c.n), B: b, Marks: marks})
 	}
+	out = append(out, c07DeepSeeds(thorough)...)
 	sort.SliceStable(out, func(i, j int) bool { return len(out[i].B) < len(out[j].B) })
+	return out
+}
+
+// c07DeepSeeds: bundle-add nested in bundle-add to depth 2..40 (the only recursion the wire grammar
+// offers the parser), around a message the parser decodes (echo request, flow-mod) and around one
+// it rejects (group-mod), bare and with a property behind every level. Time must stay proportional
+// to the input; the deviation sets around these seeds include every truncation and every length
+// field of every level.
+func c07DeepSeeds(thorough bool) []*devSeed {
+	depths := []int{2, 4, 8, 16, 24, 32, 40}
+	prop := func(rot int) *wire.N {
+		return wire.New("bundle_prop_experimenter").Set("ExperimenterID", corpus.PatU(4, rot)).Set("ExperimenterType", corpus.PatU(4, rot+1))
+	}
+	var out []*devSeed
+	for _, d := range depths {
+		for ci, core := range []*wire.N{wire.New("echo_request"), corpus.FlowMod(0, corpus.Match(corpus.OxmByName("OXM_OF_IN_PORT", false, 1)), corpus.Instr("instr_goto_table", 1)), corpus.GroupMod(0, 1, corpus.Bucket(1))} {
+			for _, withProps := range []bool{false, true} {
+				n := core.Clone()
+				for i := 0; i < d; i++ {
+					n = corpus.BundleAdd(n, uint64(i%4))
+					if withProps {
+						n.S["VendorData"].Add("Properties", prop(i))
+					}
+				}
+				b, marks := wire.Encode(n)
+				if len(b) > 8000 {
+					continue
+				}
+				out = append(out, &devSeed{Name: fmt.Sprintf("bundle-add nested %d deep around %s (core %d), properties %v", d, core.K, ci, withProps), B: b, Marks: marks})
+			}
+		}
+	}
 	return out
 }
 
